@@ -5,8 +5,8 @@ Import ListNotations.
 Record case := { k_in : bytes; k_obs : bytes }.
 
 Definition check (k : case) : verdict :=
-  match decode_input (k_in k), decode_obs (k_obs k) with
+  match decode_input2 (k_in k), decode_obs2 (k_obs k) with
   | Some (rts, snap, evs), Some tr =>
-      if legal snap evs then mk_verdict None (oracle snap evs tr) else VSkip
+      if legal2 snap evs then mk_verdict None (oracle2 snap evs tr) else VSkip
   | _, _ => VSpec
   end.
